@@ -66,11 +66,18 @@ fn new_bytecode<'gc>(
     let globals = module_globals
         .into_iter()
         .map(|index| {
+            // The module may have been compiled in another vm (precompiled bytecode) so the global
+            // is not guaranteed to exist in this one
             env.get_global(index.definition_name())
-                .expect("ICE: Global is missing from environment")
-                .value
+                .map(|global| global.value)
+                .ok_or_else(|| {
+                    Error::Message(format!(
+                        "Global `{}` is missing from the environment",
+                        index.definition_name()
+                    ))
+                })
         })
-        .collect::<Vec<_>>();
+        .collect::<Result<Vec<_>>>()?;
 
     // SAFETY No collection are done while we create these functions
     unsafe {
